@@ -6,6 +6,8 @@ import (
 	"fmt"
 	"io"
 	"runtime"
+	"sync"
+	"sync/atomic"
 	"unsafe"
 
 	"github.com/pion/stun/v3"
@@ -19,13 +21,19 @@ func init() { core.Register("C01", c01) }
 
 // scriptedReader returns the datagram as scripted.
 type scriptedReader struct {
-	data []byte
-	mode int // 0 whole, 1 short (n<20 bytes), 2 n>0 with error, 3 zero+EOF
+	data  []byte
+	mode  int // 0 whole, 1 short (n<20 bytes), 2 n>0 with error, 3 zero+EOF
+	calls int
+	next  []byte // what a second Read would return: the NEXT datagram, which belongs to nobody yet
 }
 
 var errScripted = errors.New("scripted read error")
 
 func (s *scriptedReader) Read(p []byte) (int, error) {
+	s.calls++
+	if s.calls > 1 && s.mode == 0 {
+		return copy(p, s.next), nil
+	}
 	switch s.mode {
 	case 1:
 		n := len(s.data)
@@ -125,6 +133,40 @@ func c01Entries() []c01Entry {
 
 			return dst, in, err
 		}, true},
+		{"self-aliased input", func(in []byte, r *gen.Rand) (*stun.Message, []byte, error) {
+			// the bytes to decode live inside the receiver's own buffer (a packet read into m.Raw behind a length prefix,
+			// a message carried in the DATA attribute of the message just decoded, the second of two back-to-back messages)
+			m := new(stun.Message)
+			var data []byte
+			if len(in) <= 60000 && r.Bool() {
+				outer := ref.Encode(0x0017, r.TID(), []ref.Attr{{Type: 0x0013, Value: in}, {Type: 0x8022, Value: []byte("outer")}})
+				if err := stun.Decode(outer, m); err != nil {
+					return m, in, fmt.Errorf("outer message does not decode (%v): %w", err, errHarnessAssert)
+				}
+				v, err := m.Get(stun.AttrData)
+				if err != nil || !bytes.Equal(v, in) {
+					return m, in, fmt.Errorf("DATA value differs: %w", errHarnessAssert)
+				}
+				data = v
+			} else {
+				k := r.Intn(9)
+				m.Raw = append(append(append(make([]byte, 0, k+len(in)+r.Intn(40)), r.Bytes(k)...), in...), r.Bytes(r.Intn(8))...)
+				data = m.Raw[k : k+len(in)]
+			}
+			var err error
+			switch r.Intn(4) {
+			case 0:
+				err = stun.Decode(data, m)
+			case 1:
+				_, err = m.Write(data)
+			case 2:
+				err = m.UnmarshalBinary(data)
+			default:
+				err = m.GobDecode(data)
+			}
+
+			return m, in, err
+		}, true},
 		{"ReadFrom", func(in []byte, r *gen.Rand) (*stun.Message, []byte, error) {
 			// destination capacity: 0, 19, 20, exact, larger
 			var capacity int
@@ -148,7 +190,18 @@ func c01Entries() []c01Entry {
 			if r.Chance(1, 5) {
 				rd.mode = 1 + r.Intn(3)
 			}
+			// the datagram after this one: the rest of this very message (as if a stream had split it) or another message
+			if len(in) > 24 && r.Bool() {
+				cut := 20 + r.Intn(len(in)-20)
+				rd.data, rd.next = in[:cut], in[cut:]
+				in = in[:cut]
+			} else {
+				rd.next = r.Spec(2, 16).Wire()
+			}
 			n, err := m.ReadFrom(rd)
+			if rd.mode == 0 && rd.calls != 1 {
+				return m, in, fmt.Errorf("ReadFrom called Read %d times: one call reads one datagram: %w", rd.calls, errHarnessAssert)
+			}
 			seen := in
 			if len(seen) > capacity {
 				seen = seen[:capacity]
@@ -310,6 +363,125 @@ func c01(c *core.Ctx) {
 	}
 	c.Section("inputs", n, func(i int64, r *gen.Rand) {
 		judge(i, r, r.Hostile(seeds(), 65555), []int{0, 1})
+	})
+	// attribute values kept by the application after it dropped the Message stay what they were: across garbage
+	// collections and whatever is decoded into other (New, pooled, reused) messages afterwards
+	c.SectionSerial("retained-values", c.N(6, 200), func(i int64, r *gen.Rand) {
+		type kept struct{ view, copy []byte }
+		var keep []kept
+		for k := 0; k < 300; k++ {
+			spec := r.Spec(4, 40)
+			spec.Attrs = append(spec.Attrs, ref.Attr{Type: 0x0006, Value: r.Bytes(8 + r.Intn(40))})
+			wire := spec.Wire()
+			var m *stun.Message
+			switch k % 3 {
+			case 0:
+				m = stun.New()
+			case 1:
+				m = new(stun.Message)
+			default:
+				m = &stun.Message{Raw: make([]byte, 0, 64+r.Intn(200))}
+			}
+			var err error
+			switch k % 4 {
+			case 0:
+				_, err = m.Write(wire)
+			case 1:
+				err = stun.Decode(wire, m)
+			case 2:
+				err = m.UnmarshalBinary(wire)
+			default:
+				if cap(m.Raw) < len(wire) {
+					m.Raw = make([]byte, 0, len(wire)+r.Intn(32)) // ReadFrom reads into the capacity it is given
+				}
+				_, err = m.ReadFrom(bytes.NewReader(wire))
+			}
+			if err != nil {
+				fatalHarness("C01 retained-values: " + err.Error())
+			}
+			v, _ := m.Get(stun.AttrUsername)
+			keep = append(keep, kept{v, append([]byte(nil), v...)})
+		} // the messages are unreachable now, their values are not
+		for round := 0; round < 3; round++ {
+			runtime.GC()
+			runtime.Gosched()
+			for k := 0; k < 400; k++ {
+				m := stun.New()
+				_, _ = m.Write(r.Spec(5, 60).Wire())
+				m.Add(stun.AttrSoftware, bytes.Repeat([]byte{0x5A}, 1+r.Intn(200)))
+			}
+		}
+		c.Eval(int64(len(keep)))
+		for k, kv := range keep {
+			if !bytes.Equal(kv.view, kv.copy) {
+				c.Violate("retained-value-changed", "retained-value-changed", map[string]interface{}{
+					"problem":       "an attribute value obtained from a decoded message changed after the message was dropped, a garbage collection ran and other messages were decoded",
+					"message_index": k, "value_then_hex": core.Hex(kv.copy), "value_now_hex": core.Hex(kv.view)})
+
+				return
+			}
+		}
+		c.Count("retained_values_checked", int64(len(keep)))
+		c.Distinct(uint64(i) | 7<<50)
+	})
+	// several goroutines decoding independent hostile inputs at the same time (and formatting the errors they get): a
+	// decoder has no business with shared state; a crash or a race report ends the child process / the race build
+	c.Section("concurrent-decoders", c.N(40, 2000), func(i int64, _ *gen.Rand) {
+		const g = 8
+		var wg sync.WaitGroup
+		var panics int32
+		for k := 0; k < g; k++ {
+			wg.Add(1)
+			rk := gen.Derive(c.Seed, uint64(i), uint64(k), 0xC01C)
+			go func() {
+				defer wg.Done()
+				defer func() {
+					if recover() != nil {
+						atomic.AddInt32(&panics, 1)
+					}
+				}()
+				m := new(stun.Message)
+				for n := 0; n < 150; n++ {
+					in := rk.Hostile(nil, 300)
+					if n%3 == 0 { // truncated inside a value of an unknown attribute type
+						s := rk.Spec(2, 20)
+						s.Attrs = append(s.Attrs, ref.Attr{Type: uint16(rk.U64()), Value: rk.Bytes(8 + rk.Intn(20))})
+						w := s.Wire()
+						in = w[:len(w)-1-rk.Intn(6)]
+						l := len(w) - 20
+						in[2], in[3] = byte(l>>8), byte(l)
+					}
+					var err error
+					switch n % 4 {
+					case 0:
+						err = stun.Decode(in, m)
+					case 1:
+						_, err = m.Write(in)
+					case 2:
+						err = m.UnmarshalBinary(in)
+					default:
+						m2 := &stun.Message{Raw: append([]byte(nil), in...)}
+						err = m2.Decode()
+					}
+					if err != nil {
+						_ = err.Error()
+						_ = fmt.Sprintf("%v %+v", err, err)
+					} else {
+						_ = m.String()
+						for _, a := range m.Attributes {
+							_ = a.String()
+						}
+					}
+				}
+			}()
+		}
+		wg.Wait()
+		c.Eval(g * 150)
+		c.Count("concurrent_decodes", g*150)
+		if panics > 0 {
+			c.Violate("panic", "panic:concurrent-decoders", map[string]interface{}{"goroutines_that_panicked": panics})
+		}
+		c.Distinct(uint64(i) | 8<<50)
 	})
 	// every value of the first two bytes, with an intact and with a damaged cookie: no type value is special
 	tf := int64(65536)
